@@ -22,7 +22,10 @@ def assume(a, ps):
 
 
 def slices(tier, rng):
-    return [Slice('unrelated-ps%d' % ps, 't_unrelated', 10, lambda a, ps=ps: assume(a, ps), opts={'must_reach': ['ok/ok']}) for ps in (4, 8)]
+    out = [Slice('unrelated-ps%d' % ps, 't_unrelated', 10, lambda a, ps=ps: assume(a, ps), opts={'must_reach': ['ok/ok']}, ctx={'t': 'u'}) for ps in (4, 8)]
+    out.append(Slice('modtype-ps4', 't_modtype', 4, lambda a: [a[0] == 4, z3.ULT(a[1], 1 << 12), z3.UGE(a[1], 1), z3.ULT(a[2], 1 << 12), z3.UGE(a[2], 1), z3.ULE(a[3], 1)],
+                     opts={'must_reach': ['ok/ok']}, ctx={'t': 'modtype'}))
+    return out
 
 
 def module_part(o, names):
@@ -37,18 +40,23 @@ def leaf_queries(I, a, leaf, py, sl):
         if is_ok(o1) and is_err(o2):
             return [Query('adding-an-unrelated-valid-module-keeps-the-build-accepted', z3.BoolVal(True))]
         return []
-    d = differs(module_part(o1, ('m', 'n')), module_part(o2, ('m', 'n')))
+    names = ('m', 'n') if sl.ctx.get('t') != 'modtype' else ('p::q',)
+    d = differs(module_part(o1, names), module_part(o2, names))
     return [Query('observed-modules-are-identical', as_z3(d))]
 
 
 def same_outcome(native, expected): return pair_same_outcome(native, expected)
 
 
-def region_env(a, sl): return {}
+def region_env(a, sl):
+    return {'enclosing_module_declares_type_named_like_the_module': (a[3] == 0) if sl.ctx.get('t') == 'modtype' else z3.BoolVal(False)}
 
 
 def describe(template, args):
     a = [int(x) for x in args]
+    if template == 't_modtype':
+        return ('// pointer size %d\nmodule p::q: #[size(%d), align(1)] extern type %s; #[packed] pub type R { pub f: %s }\n'
+                'module p: (first build: empty; second build: #[size(%d), align(1)] extern type %s;)') % (a[0], a[1], 'S' if a[3] else 'q', 'S' if a[3] else 'q', a[2], 'S' if a[3] else 'q')
     u = [x for x, f in (('type R', a[3]), ('extern type S (size %d)' % a[5], a[4]), ('type RVftable', a[6]), ('enum K', a[7]), ('use m', a[8])) if f]
     return ('// pointer size %d\nmodule n: #[size(%d), align(1)] extern type S;\nmodule m: use n; #[packed] pub type R { %spub p: *const R, pub f: S } '
             'pub enum K: u32 { A }\nmodule u (unrelated, added %s): %s') % (a[0], a[1], 'vftable { pub fn f(&self); }, ' if a[2] else '',
